@@ -3,7 +3,7 @@
    per-class first-token theorems of LexemeFacts.v (`lexeme_wins`) apply to it; the value comes from
    EscapeEncFacts.escape_value_stable_lemma.  Nothing about the regexes is re-proved here.                      *)
 From CssV Require Import Base Regex RegexFacts Gen.TokTables Gen.Productions Tokenizer TokenizerFacts.
-From CssV Require Import Lexemes LexemeRegex LexemeFacts EscapeEnc EscapeEncFacts.
+From CssV Require Import Lexemes LexemeRegex LexemeFacts LexemeUri EscapeEnc EscapeEncFacts.
 
 (* what one iteration of the tokenizer loop yields at the start of t: (type, value, length of the match) *)
 Definition first_token (dc : bool) (prev : option N) (t : str) : option (str * str * nat) :=
@@ -141,6 +141,22 @@ Section EscLexemes.
       unfold first_plain_ok. destruct Hfirst as [->|(He & H1 & H2)]; [reflexivity|].
       unfold esc_el. rewrite He. apply N.eqb_neq in H1, H2. rewrite H1, H2. now destruct d.
     - left. reflexivity.
+    - now apply ident_no_bs.
+    - now apply valid_ident.
+  Qed.
+
+  (* any identifier (first character escaped, u, U included): C09's ident_lexeme_full needs only that neither
+     an opening parenthesis nor a plus sign follows *)
+  Theorem escaped_ident_first_token_full_lemma d c0 cs follow dc prev :
+    nmstart_plain c0 = true -> forallb nmchar_plain cs = true -> valid (c0 :: cs) ->
+    hd_not nm_cont follow = true -> hd_not (is_c 40) follow = true -> hd_not (is_c 43) follow = true ->
+    let l := ident_chars d c0 cs in
+    first_token dc prev (Esc l ++ follow) = Some (s "IDENT", l, length (Esc l)).
+  Proof.
+    intros H0 Hcs Hv Hf Hp Hplus l. unfold first_token.
+    pose proof (ident_lexeme_full d (esc_el c0) (esc_els cs) follow (wf_ident_esc d c0 cs follow H0 Hcs Hv Hf) Hp Hplus dc prev) as Hw.
+    cbn [text cls] in Hw. rewrite <- Esc_ident in Hw. fold l in Hw. rewrite Hw.
+    rewrite skipn_app_exact, (escape_value_stable_lemma encc (s "IDENT") l follow); [reflexivity|left; reflexivity| |].
     - now apply ident_no_bs.
     - now apply valid_ident.
   Qed.
